@@ -9,6 +9,7 @@ package scen
 import (
 	"fmt"
 	"net/http/httptest"
+	"reflect"
 	"regexp"
 	"strings"
 	"time"
@@ -214,6 +215,77 @@ func c02UndecodableScenario(x *mc.X) *mc.Outcome {
 	if !eqStrings(got, want) || ran != 0 {
 		x.Note("%s %s body %q into a record schema (behind Ptr=%v) with required fields, a nested record, a list and a failing record-level test", method, b.ct, b.body, behindPtr)
 		out.Viol = append(out.Viol, &mc.Violation{Key: "C02:undecodable-document:" + b.code, What: "an undecodable document must yield exactly one issue at the root and suppress the record's own tests and children", Expected: fmt.Sprintf("%v, record-level test not run", want), Observed: fmt.Sprintf("%v, record-level test ran %d times", got, ran)})
+	}
+	return out
+}
+
+// A Custom schema does not coerce: an input that is not of its type T — also one of a DIFFERENT Go type with the
+// same underlying kind (a named string for CustomFunc[string], a plain string for CustomFunc[Named]) — is one
+// un-coercible value: exactly one coerce issue at the node, and the node's own function does not run.
+type c02UserID string
+type c02Celsius float64
+type c02Count int
+
+func c02CustomTypesScenario(x *mc.X) *mc.Outcome {
+	zh.Reset()
+	zh.Install(x, zh.PoolLIFO, zh.OrderSorted)
+	ran := 0
+	type cse struct {
+		name string
+		run  func(in any, place int) z.ZogIssueList
+		ins  []any // inputs of other types (must be rejected); the last one has exactly type T (must be accepted and tested)
+	}
+	mk := func(name string, top func(in any) z.ZogIssueList, sch func() z.ZogSchema, dt any, ins ...any) cse {
+		return cse{name, func(in any, place int) z.ZogIssueList {
+			switch place {
+			case 0:
+				return top(in)
+			case 1:
+				d := reflect.New(reflect.StructOf([]reflect.StructField{{Name: "V", Type: reflect.TypeOf(dt)}}))
+				return z.Struct(z.Schema{"v": sch()}).Parse(map[string]any{"v": in}, d.Interface())["v"]
+			default:
+				d := reflect.New(reflect.SliceOf(reflect.TypeOf(dt)))
+				return z.Slice(sch()).Parse([]any{in}, d.Interface())["[0]"]
+			}
+		}, ins}
+	}
+	cs := func() *z.Custom[string] { return z.CustomFunc(func(p *string, c z.Ctx) bool { ran++; return false }, z.IssueCode("own")) }
+	cu := func() *z.Custom[c02UserID] {
+		return z.CustomFunc(func(p *c02UserID, c z.Ctx) bool { ran++; return false }, z.IssueCode("own"))
+	}
+	cf := func() *z.Custom[float64] { return z.CustomFunc(func(p *float64, c z.Ctx) bool { ran++; return false }, z.IssueCode("own")) }
+	ci := func() *z.Custom[int] { return z.CustomFunc(func(p *int, c z.Ctx) bool { ran++; return false }, z.IssueCode("own")) }
+	cases := []cse{
+		mk("CustomFunc[string]", func(in any) z.ZogIssueList { var d string; return cs().Parse(in, &d) }, func() z.ZogSchema { return cs() }, "", c02UserID("u1"), []byte("u1"), 7, "plain"),
+		mk("CustomFunc[UserID]", func(in any) z.ZogIssueList { var d c02UserID; return cu().Parse(in, &d) }, func() z.ZogSchema { return cu() }, c02UserID(""), "u1", zooNamedStr("u1"), c02UserID("u1")),
+		mk("CustomFunc[float64]", func(in any) z.ZogIssueList { var d float64; return cf().Parse(in, &d) }, func() z.ZogSchema { return cf() }, 0.0, c02Celsius(21.5), float32(1.5), 3, 21.5),
+		mk("CustomFunc[int]", func(in any) z.ZogIssueList { var d int; return ci().Parse(in, &d) }, func() z.ZogSchema { return ci() }, 0, c02Count(3), int32(3), int64(3), 3.0, 3),
+	}
+	c := cases[x.Choose(len(cases), "schema")]
+	ii := x.Choose(len(c.ins), "input")
+	place := x.Choose(3, "placement")
+	in := c.ins[ii]
+	exact := ii == len(c.ins)-1
+	var l z.ZogIssueList
+	pmsg := func() (msg string) {
+		defer func() {
+			if r := recover(); r != nil {
+				msg = firstLine(fmt.Sprint(r))
+			}
+		}()
+		l = c.run(in, place)
+		return ""
+	}()
+	zh.Reset()
+	wantCode, wantRan := "coerce", 0
+	if exact {
+		wantCode, wantRan = "own", 1
+	}
+	out := &mc.Outcome{Traces: 1, Nontrivial: true, Sig: fmt.Sprintf("customtype|%s|%T|%d", c.name, in, place)}
+	out.Sample = map[string]any{"schema": c.name, "input": fmt.Sprintf("%T(%v)", in, in), "placement": place, "issues": issueCodes(l)}
+	if pmsg != "" || len(l) != 1 || l[0].Code != wantCode || ran != wantRan {
+		x.Note("%s given %T(%v) at placement %d (0 top, 1 field, 2 element)", c.name, in, in, place)
+		out.Viol = append(out.Viol, &mc.Violation{Key: "C02:custom-does-not-coerce:" + c.name, What: "a Custom schema given a value that is not of its type must report exactly one coerce issue and not run its function (a value of its type: exactly the function's own issue)", Expected: fmt.Sprintf("[%s], function ran %d times", wantCode, wantRan), Observed: fmt.Sprintf("panic=%q %s, function ran %d times", pmsg, issueCodes(l), ran)})
 	}
 	return out
 }
